@@ -248,3 +248,47 @@ Example C11_newick_example :
   /\ Newick.decode C11_nw_o (Newick.marshal C11_nw_o C11_nw_tree) TEOF
      = Ok [Rec (Newick.Node (bs "d") (bs "0") [Newick.Node (bs "a b") (bs "1") []; Newick.Node (bs "c") (bs "0") []])].
 Proof. vm_compute. split; reflexivity. Qed.
+
+(* ---- totality of the translated source ---------------------------------------------------------------
+   The decoders as translated from the Go source on this run (gen/ImpGen.v) return a value — never
+   GoSem.Panics (an index or slice out of range, a nil dereference, an explicit panic) and never
+   GoSem.NoFuel — for EVERY input, every float oracle and both ways a stream can end, given fuel
+   linear in the input.  Corollaries of the equivalence theorems of C01–C05 and C20 and of the
+   no-panic theorems of the models.  (fastq and smtext take the Scanner's tokens: the split of
+   the bytes into lines is bufio's, Base.scan_tokens.) *)
+From Bio.gen Require ImpGen.
+From Bio.Model Require GoSem.
+From Bio.Proofs Require ImpProofsJ ImpProofsK ImpProofsS.
+
+Theorem C11_fasta_reader_total_is_source : forall fuel inp t, (length inp + 2 < fuel)%nat ->
+  ImpProofsS.returns (ImpGen.imp_fastard_Reader fuel (GoSem.Stream inp (ImpProofsJ.term_code t) None)).
+Proof. exact ImpProofsS.fasta_Reader_returns. Qed.
+Print Assumptions C11_fasta_reader_total_is_source.
+
+Theorem C11_fastq_reader_total_is_source : forall fuel cur (toks : list bytes) t, (length toks + 1 < fuel)%nat ->
+  ImpProofsS.returns (ImpGen.imp_fastqrd_Reader fuel (GoSem.Scanner cur toks (ImpProofsK.scan_code t) false)).
+Proof. exact ImpProofsS.fastq_Reader_returns. Qed.
+Print Assumptions C11_fastq_reader_total_is_source.
+
+Theorem C11_bed_reader_total_is_source : forall t fuel s, (length s + 2 < fuel)%nat ->
+  ImpProofsS.returns (ImpGen.imp_bed_Reader fuel (GoSem.Stream s (ImpProofsJ.term_code t) None)).
+Proof. exact ImpProofsS.bed_Reader_returns. Qed.
+Print Assumptions C11_bed_reader_total_is_source.
+
+Theorem C11_sam_reader_total_is_source : forall o t fuel s, (length s + 1 < fuel)%nat ->
+  ImpProofsS.returns (ImpGen.imp_samrd_ReaderHeader fuel o (GoSem.Stream s (ImpProofsJ.term_code t) None))
+  /\ ImpProofsS.returns (ImpGen.imp_samrd_Reader fuel o (GoSem.Stream s (ImpProofsJ.term_code t) None)).
+Proof.
+  intros o t fuel s H. split; [apply ImpProofsS.sam_ReaderHeader_returns | apply ImpProofsS.sam_Reader_returns]; exact H.
+Qed.
+Print Assumptions C11_sam_reader_total_is_source.
+
+Theorem C11_newick_read_total_is_source : forall o tm fuel h s last r0, (length s + 2 < fuel)%nat ->
+  ImpProofsS.returns (ImpGen.imp_newickrd_reader_read fuel o h (GoSem.Stream s (ImpProofsJ.term_code tm) last) r0).
+Proof. exact ImpProofsS.newick_read_returns. Qed.
+Print Assumptions C11_newick_read_total_is_source.
+
+Theorem C11_smtext_read_total_is_source : forall o fuel cur (toks : list bytes) code, (length toks < fuel)%nat ->
+  ImpProofsS.returns (ImpGen.imp_smtext_ReadNCBI fuel o (GoSem.Scanner cur toks code false)).
+Proof. exact ImpProofsS.smtext_ReadNCBI_returns. Qed.
+Print Assumptions C11_smtext_read_total_is_source.
